@@ -1,7 +1,7 @@
 (* Extract.v -- extraction of the executable model to OCaml (ExtrOcamlBasic only: bool, option,
    unit, list, prod, sumbool, sumor are mapped to OCaml's; N / positive / nat stay inductive). *)
 From Coq Require Import Extraction ExtrOcamlBasic.
-From WaxModel Require Import Base Token Parse Regex Spec Encode Variance Fold Rule Query Glob.
+From WaxModel Require Import Base Token Parse Regex Spec Encode Variance Fold Rule Query Glob Walk.
 
 Extraction Language OCaml.
 
@@ -18,4 +18,5 @@ Separate Extraction
   Query.captures Query.has_semantic_literals Query.component_programs Query.partition
   Query.any_tree Query.not_partition Query.into_alternatives Query.escape
   Query.is_meta_character Query.is_contextual_meta_character Query.invariant_text_prefix
-  Glob.build Glob.compile_ok.
+  Glob.build Glob.compile_ok
+  Walk.walk Walk.glob_layer Walk.not_layer Walk.table_layer Walk.join_path Base.SEP.
